@@ -423,7 +423,7 @@ def gen_tied_case(rng, i, nsg=None, extras=True):
     return Case(mb, info, cmds=cmds, data=data, desc=[(c["regex"], c["operation"], c["alg"]) for c in cmds])
 
 
-def blockwise_probe(ctx, drv, interp, n, sharing=False, extra=None):
+def blockwise_probe(ctx, drv, interp, n, sharing=False, extra=None, only_8_bits=False):
     """BLOCKWISE weights replace the FULLY_CONNECTED by a pattern of operators (emulated sub-channel quantization, only reachable with
     skip_checks): outside the Lean model, so only the independent well-formedness checker, the byte-length decoder and the interpreter
     look at these results.  sharing=True: the weight's buffer is also referenced by a tensor nobody reads / by the weight of a second
@@ -486,7 +486,7 @@ def blockwise_probe(ctx, drv, interp, n, sharing=False, extra=None):
         g.io(gr.inputs, [last] + outs, sig="serving_default")
         mb = g.bytes()
         info = {"tags": {"blockwise_emulated_subchannel"}, "subgraphs": [{"sig": "serving_default", "int_inputs": [], "ops": ["FULLY_CONNECTED"]}]}
-        bits = 8 if sharing else ctx.rng.choice([8, 8, 4])   # 4 bits: finding D37 (C01)
+        bits = 8 if (sharing or only_8_bits) else ctx.rng.choice([8, 8, 4])   # 4 bits: finding D37 (C01)
         cfg = fr.cdesc(None, fr.tdesc(bits, True, "BLOCKWISE", "INT", ctx.rng.choice([16, 32])), "FLOAT", True, True)
         cmds = [{"k": "add", "regex": regex, "operation": "FULLY_CONNECTED", "cfg": cfg, "alg": "min_max_uniform_quantize"}]
         case = Case(mb, info, cmds=cmds, data=gm.random_inputs(mb, ctx.rng, n=1), desc=[("blockwise", variant, bits, "FULLY_CONNECTED", pre)])
